@@ -681,13 +681,20 @@ class VMF:
         self.entities.append(item)
         self.by_class[item['classname', ''].casefold()].add(item)
         self.by_target[item['targetname', ''].casefold() or None].add(item)
-        if 'nodeid' in item:
-            try:
-                node_id = int(item['nodeid'])
-            except (TypeError, ValueError):
-                pass
-            else:
-                item['nodeid'] = str(self.node_id.get_id(node_id))
+        self._claim_node_id(item)
+
+    def _claim_node_id(self, item: 'Entity') -> None:
+        """Reserve the node ID of an entity just added, picking another if it is already used."""
+        for key, value in item._keys.items():
+            if key.casefold() == 'nodeid':
+                try:
+                    node_id = int(value)
+                except (TypeError, ValueError):
+                    pass
+                else:
+                    # Not item[key] = ..., that would release the original ID another entity may own.
+                    item._keys[key] = str(self.node_id.get_id(node_id))
+                return
 
     def remove_ent(self, item: 'Entity') -> None:
         """Remove an entity from the map.
@@ -698,11 +705,13 @@ class VMF:
         try:
             self.entities.remove(item)
         except ValueError:
-            pass  # Already removed.
+            was_present = False  # Already removed.
+        else:
+            was_present = True
 
         _remove_copyset(self.by_class, item['classname'].casefold(), item)
         _remove_copyset(self.by_target, item['targetname'].casefold() or None, item)
-        if 'nodeid' in item:
+        if was_present and 'nodeid' in item:
             try:
                 node_id = int(item['nodeid'])
             except (TypeError, ValueError):
@@ -721,13 +730,7 @@ class VMF:
         for item in ents:
             self.by_class[item['classname'].casefold()].add(item)
             self.by_target[item['targetname', ''].casefold() or None].add(item)
-            if 'nodeid' in item:
-                try:
-                    node_id = int(item['nodeid'])
-                except (TypeError, ValueError):
-                    pass
-                else:
-                    item['nodeid'] = str(self.node_id.get_id(node_id))
+            self._claim_node_id(item)
 
     def create_ent(self, classname: str, **kargs: ValidKVs) -> 'Entity':
         """Convenience method to allow creating point entities.
@@ -3001,7 +3004,8 @@ class Entity(MutableMapping[str, str]):
             _remove_copyset(self.map.by_target, (orig_val or '').casefold() or None, self)
             if self in self.map.entities:
                 self.map.by_target[str_val.casefold() or None].add(self)
-        elif key_fold == 'nodeid':
+        elif key_fold == 'nodeid' and self in self.map.entities:
+            # Only entities in the map own a node ID.
             try:
                 node_id = int(orig_val)  # type: ignore  # Using as a cast
             except (TypeError, ValueError):
@@ -3038,7 +3042,7 @@ class Entity(MutableMapping[str, str]):
             if k.casefold() == key:
                 # After popping we break out and won't iterate.
                 val = self._keys.pop(k)  # noqa: B909
-                if key == 'nodeid':
+                if key == 'nodeid' and self in self.map.entities:
                     try:
                         node_id = int(val)
                     except (TypeError, ValueError):
